@@ -12,10 +12,11 @@ def main():
     out = []
     for item in spec["items"]:
         r = {}
+        kw = {"input_encoding": item["input_encoding"]} if item.get("input_encoding") else {}
         for pname, ctor in (
             ("string", lambda: Template(item["text"])),
-            ("file", lambda: Template(filename=item["file"])),
-            ("module-reload", lambda: Template(filename=item["file"], module_directory=item["moddir"])),
+            ("file", lambda: Template(filename=item["file"], **kw)),
+            ("module-reload", lambda: Template(filename=item["file"], module_directory=item["moddir"], **kw)),
         ):
             try:
                 t = ctor()
